@@ -443,8 +443,8 @@ pub fn run_c08(ctx: &Ctx) -> i32 {
 // C09
 
 fn c09_seq_text(seq: &[usize], consts_mask: u32) -> String {
-    // element: name (3) x code {none, 1, 2, 3} = 12
-    let names = ["alpha", "beta", "gamma"];
+    // element: name (3) x code {none, 1, 2, 3} = 12; the third name differs from the first only in case
+    let names = ["alpha", "beta", "Alpha"];
     let mut s = String::from("package t; interface I { ");
     for (i, e) in seq.iter().enumerate() {
         if consts_mask & (1 << i) != 0 {
@@ -502,7 +502,7 @@ pub fn run_c09(ctx: &Ctx) -> i32 {
     // random long sequences with large / zero-padded codes
     stats.merge(par_cases(ctx, "long", ctx.tier.pick(6_000, 120_000), Duration::from_secs(ctx.tier.pick(40, 600)), |i, rng, st| {
         let n = rng.range(6, 40);
-        let names = ["a", "b", "c", "d", "e", "f", "g", "h", "alpha", "beta", "getInterfaceVersion", "getInterfaceHash", "getTransactionName", "asBinder", "toString", "TRUE", "Interface"];
+        let names = ["a", "b", "c", "d", "e", "f", "g", "h", "alpha", "beta", "getInterfaceVersion", "getInterfaceHash", "getTransactionName", "asBinder", "toString", "TRUE", "Interface", "A", "B", "Alpha", "ALPHA", "Beta", "tostring"];
         let codes = ["0", "1", "01", "001", "7", "007", "4294967295", "4294967294", "16777215", "10", "010"];
         let style = rng.below(3); // 0: mixed, 1: all coded, 2: none coded
         let mut s = String::from("package t; interface I { ");
